@@ -264,7 +264,9 @@ Definition announce (s : state) (n : node) : state * list msg :=
 (** ** SendFullTable (repaired) *)
 
 (** replayKeyFor: own routes form one group; foreign routes are grouped by
-    (origin, sequence, path) *)
+    (origin, sequence, path).  (Route sets are assumed to fit one
+    advertisement -- fewer than 256 routes within the byte budget of
+    splitRoutes -- so AnnounceLocalRoutes and each replay group are one frame.) *)
 Definition gkey := (N * N * list N)%type.
 
 Definition gkey_of (self : node) (e : entry) : gkey :=
@@ -301,6 +303,35 @@ Definition replay_group (cf : config) (self peer fresh : N) (cands : list entry)
            a_routes := sort_by route_ltb (map route_of_entry (filter (fun e => gkey_eqb (gkey_of self e) k) cands));
            a_path := path; a_seenby := path |}].
 
+(** A receiver accepts one advertisement per (origin, sequence), so of the
+    foreign groups with the same origin and sequence (the agent table keeps
+    one presence route per next hop, so one advertisement learned over two
+    paths leaves two groups) only the best one is replayed: most routes, then
+    the shorter path, then the smaller path (bestGroup in SendFullTable; a
+    strict total order on the groups of one (origin, sequence), so Go's map
+    iteration order does not matter).  The selection is made BEFORE the
+    peer-on-path and hop-limit tests. *)
+Definition gsize (self : node) (cands : list entry) (k : gkey) : N :=
+  lenN (filter (fun e => gkey_eqb (gkey_of self e) k) cands).
+
+Definition same_adv (k c : gkey) : bool :=
+  let '(o1, s1, _) := k in let '(o2, s2, _) := c in (o1 =? o2) && (s1 =? s2).
+
+(** [gbetter k c]: group k is strictly preferred to group c *)
+Definition gbetter (self : node) (cands : list entry) (k c : gkey) : bool :=
+  let '(_, _, pk) := k in let '(_, _, pc) := c in
+  (gsize self cands c <? gsize self cands k) ||
+  ((gsize self cands k =? gsize self cands c) &&
+   ((lenN pk <? lenN pc) || ((lenN pk =? lenN pc) && list_ltb pk pc))).
+
+Definition keep_group (self : node) (cands : list entry) (keys : list gkey) (k : gkey) : bool :=
+  (fst (fst k) =? self) ||
+  forallb (fun c => negb (same_adv k c && gbetter self cands c k)) keys.
+
+Definition replay_keys (self : node) (cands : list entry) : list gkey :=
+  let keys := dedup_keys (map (gkey_of self) cands) in
+  filter (keep_group self cands keys) keys.
+
 Definition has_own (self : node) (cands : list entry) : bool :=
   existsb (fun e => e_origin e =? self) cands.
 
@@ -310,7 +341,7 @@ Definition replay (cf : config) (s : state) (self peer : node) : state * list ms
   | Some ns =>
     let cands := filter (fun e => negb (e_nexthop e =? peer)) (ns_entries ns) in
     let fresh := ns_seq ns + 1 in
-    let advs := flat_map (replay_group cf self peer fresh cands) (dedup_keys (map (gkey_of self) cands)) in
+    let advs := flat_map (replay_group cf self peer fresh cands) (replay_keys self cands) in
     let ns' := {| ns_seq := (if has_own self cands then fresh else ns_seq ns);
                   ns_entries := ns_entries ns; ns_seen := ns_seen ns; ns_locals := ns_locals ns |} in
     ({| st_nodes := set (st_nodes s) self ns'; st_links := st_links s; st_flight := st_flight s; st_now := st_now s |},
